@@ -1,0 +1,10 @@
+//go:build verif
+// +build verif
+
+// Contracts for the deductive verifier in /verif (govc). Comment-only: no executable code.
+package elector
+
+//@ interface (LeaderElector).IsLeader(e, shardId) props C13
+//@   pure-def isLeaderOf(e, shardId)
+//@ interface (LeaderElector).GetLeaders(e) props C13
+//@   pure
